@@ -268,6 +268,7 @@ func (wk *walker) emit(pos token.Pos, loc string, kind baseKind, write, atomic, 
 	r := row{Fn: wk.f.key, Loc: loc, Write: write, Atomic: atomic, File: file, Line: line, Esc: esc, Locks: []lk{}}
 	if kind == baseSelf && !esc {
 		r.Locks = wk.lockList()
+		r.Own = true
 	}
 	// de-duplicate identical rows of one line
 	for _, o := range wk.f.rows {
